@@ -1811,4 +1811,11 @@ example :
       ∧ dataEq ⟨.position, .key⟩ (.seq none xs) (.seq none ys) = false := by
   decide +kernel
 
+/-- (`_partial`: same restrictions as `diff_clean_iff_dataEq_partial`.)  **`yaml-diff` exits with 0
+exactly when the two documents are equal as data** (used by C16). -/
+theorem diff_exit_zero_iff_dataEq_partial (c : Cfg) (hc : NoKeySync c) (l r : Node)
+    (hl : wf l = true) (hr : wf r = true) (hv : report c l r = diff true c l r) :
+    exitStatus (report c l r) = 0 ↔ dataEq c l r = true :=
+  (exit_zero_iff_clean _).trans (diff_clean_iff_dataEq_partial c hc l r hl hr hv)
+
 end Ypv.C06
